@@ -22,12 +22,20 @@ package adapter
 
 import (
 	"encoding/json"
+	"regexp"
 
 	"github.com/cosmos/cosmos-sdk/codec"
 
 	"github.com/noble-assets/orbiter/v2/types"
 	"github.com/noble-assets/orbiter/v2/types/core"
 )
+
+// unknownFieldName matches the field named by the codec when the JSON contains unknown fields.
+// With more than one unknown field in an object, the codec picks the one it reports by
+// iterating over a map, so the name changes from run to run. The parsing error ends up in the
+// packet acknowledgement, which is committed to state and must be deterministic, so the name is
+// removed from the error.
+var unknownFieldName = regexp.MustCompile(`unknown field "(?:[^"\\]|\\.)*"`)
 
 // JSONParser is an utility type capable of parsing
 // a JSON representation of the orbiter payload into
@@ -79,7 +87,7 @@ func (p *JSONParser) Parse(jsonString string) (*core.Payload, error) {
 	if err != nil {
 		return nil, core.ErrParsingPayload.Wrapf(
 			"failed to cast json string into Payload: %s",
-			err.Error(),
+			unknownFieldName.ReplaceAllString(err.Error(), "unknown field"),
 		)
 	}
 
